@@ -168,14 +168,14 @@ func init() {
 			var wg sync.WaitGroup
 			// connection plans: kind 0 busy at shutdown (released d ms after it began), 1 idle keep-alive,
 			// 2 mid-request (second half never sent), 3 request arrives right around the shutdown call
-			type plan struct{ kind, delay int }
+			type plan struct{ kind, delay, jitter int }
 			plans := make([]plan, nconn)
 			for i := range plans {
-				plans[i] = plan{r.Intn(4), r.Intn(int(exitWait/time.Millisecond)/2 + 20)}
+				plans[i] = plan{r.Intn(4), r.Intn(int(exitWait/time.Millisecond)/2 + 20), r.Intn(7) - 3}
 			}
 			if acceptDelayIn > 0 { // directed: connections accepted just before the shutdown call, slow OnAccept
 				for i := range plans {
-					plans[i] = plan{4, 200 + 20*i}
+					plans[i] = plan{4, 200 + 20*i, 0}
 				}
 			}
 			var servedLate atomic.Int64 // completion time (unix nanos) of the last response of an accepted connection
@@ -257,7 +257,7 @@ func init() {
 							}
 						}
 					case 3: // request sent right around the shutdown call
-						time.Sleep(shutdownAt + time.Duration(r.Intn(7)-3)*time.Millisecond - time.Since(t0))
+						time.Sleep(shutdownAt + time.Duration(pl.jitter)*time.Millisecond - time.Since(t0)) // drawn beforehand: r is not shared between goroutines
 						s.release(id)
 						if _, err := fmt.Fprint(c, reqText(id)); err != nil {
 							return
@@ -281,11 +281,24 @@ func init() {
 			var swg sync.WaitGroup
 			swg.Add(2)
 			second := r.Intn(3) // 0: concurrently, 1: shortly after, 2: after the first returned
+			// the caller's context: none, one that can only be cancelled, one with a deadline well after the exit
+			// wait time — the exit wait time bounds the call in every case
+			callerCtx := context.Background()
+			switch r.Intn(3) {
+			case 1:
+				c2, cancel := context.WithCancel(context.Background())
+				defer cancel()
+				callerCtx = c2
+			case 2:
+				c2, cancel := context.WithTimeout(context.Background(), exitWait+8*time.Second)
+				defer cancel()
+				callerCtx = c2
+			}
 			go func() {
 				defer swg.Done()
 				shutdownBegan.Store(time.Now().UnixNano())
 				ts := time.Now()
-				res1 = s.h.Shutdown(context.Background())
+				res1 = s.h.Shutdown(callerCtx)
 				d1 = time.Since(ts)
 				if res1 == nil {
 					captureLog()
@@ -366,7 +379,7 @@ func init() {
 			return fs
 		},
 		Gen: func(t *T) {
-			for i := 0; i < t.Scale(40, 600); i++ {
+			for i := 0; i < t.Scale(40, 250); i++ {
 				ew := []int{150, 400, 1200}[t.R.Intn(3)]
 				hooks := [][]string{{}, {"1"}, {"1", "40"}, {"30", fmt.Sprint(ew + 500)}, {"5", fmt.Sprint(ew + 2500)},
 					{fmt.Sprint(ew + 500), "30"}, {"40", "40", "40"}}[t.R.Intn(7)]
@@ -698,7 +711,7 @@ func init() {
 			return fs
 		},
 		Gen: func(t *T) {
-			for i := 0; i < t.Scale(25, 400); i++ {
+			for i := 0; i < t.Scale(25, 150); i++ {
 				var in In
 				nc := 0
 				sdAt := 2 + t.R.Intn(6)
